@@ -130,7 +130,7 @@ pub fn campaigns(ctx: &Ctx) -> Stats {
         let tr = if i % 2 == 0 { [true, true, true] } else { [true, false, true] };
         let leaves = cfg.leaves(tr);
         let out = refmodel::ops::matmul(&T::from_f64(&cfg.a, &leaves[0].vals), cfg.ta, &T::from_f64(&cfg.b, &leaves[1].vals), cfg.tb, None).ok()?;
-        Some(Case3::G(GradCase { op: cfg.op(), leaves, seed: Some(distinct_seed(out.numel())), uses: 2, passes: 1, same_operand: false, detached_clone: 0 }))
+        Some(Case3::G(GradCase { op: cfg.op(), leaves, seed: Some(distinct_seed(out.numel())), uses: 2, passes: 1, same_operand: false, detached_clone: 0, view_of_first: None, swap_operands: false }))
     }));
     // arbitrary programs: every stored gradient (leaves and operation results) has its array's shape and value
     let (len, total) = t.pick((12usize, 120000u64), (32, 600000));
@@ -139,6 +139,10 @@ pub fn campaigns(ctx: &Ctx) -> Stats {
     cfg.kinds.push((Kind::Backward, 6));
     let cfg2 = cfg.clone();
     st.merge(ctx.run_prop("programs-all-stored-gradients", total, move || recipe_strategy(len), move |r| Some(Case3::H(HistCase { oracle: "c03".into(), hist: elaborate(&cfg2, r) }))));
+    {
+        let va = view_alias_cases();
+        st.merge(ctx.run_indexed("operand-is-a-view-of-the-other", va.len() as u64, None, |i| Some(Case3::H(HistCase { oracle: "c03".into(), hist: va[i as usize].history() }))));
+    }
     for (name, p) in [("programs-with-large-dimensions", Profile::LargeDims), ("programs-with-wide-magnitudes", Profile::WideMagnitudes)] {
         let mut cfg = GenCfg::programs(false);
         cfg.max_steps = t.pick(14, 30);
